@@ -40,6 +40,7 @@ class Ctx:
         self.pc = []
         self.opts = opts
         self.fmode = False
+        self.in_code = 0
         self.norm_angles = bool(opts.get("norm_angles", False))
         self.solver = z3.Solver()
         self.solver.set("timeout", opts.get("branch_timeout_ms", 1500))
@@ -178,7 +179,50 @@ class Ctx:
         return SNum(c)
 
     # ---- rounded reals (mode F)
+    # A float operation yields (i) the exact value when that value is provably representable: integers (< 2**53,
+    # assumption), multiples of 2**-k whose magnitude is shown < 2**(53-k) by a solver query under the path condition,
+    # scaling by powers of two, Sterbenz subtraction; (ii) otherwise a deterministic rounding constant r (one per exact
+    # term) with  |r-e| <= 2**-53 |e|,  floor(e) <= r <= floor(e)+1  and  e integral -> r = e  (round-to-nearest is
+    # monotone and fixes representable numbers).
+    def _dyk(self, t):
+        if t.sort() == z3.IntSort():
+            return 0
+        if z3.is_app(t) and t.decl().kind() == z3.Z3_OP_TO_REAL:
+            return 0
+        v = sym._num_val(t) if z3.is_rational_value(t) or z3.is_int_value(t) else None
+        if v is not None:
+            d = v.denominator
+            if d & (d - 1) == 0:
+                return d.bit_length() - 1
+            return None
+        e = self.__dict__.setdefault("dy", {}).get(t.get_id())
+        return e[1] if e else None
+
+    def set_dyadic(self, t, k):
+        self.__dict__.setdefault("dy", {})[t.get_id()] = (t, k)
+
+    def _mag_ok(self, exact, k):
+        if k == 0:
+            return True  # integers are assumed to stay below 2**53 (listed assumption)
+        if k > 52:
+            return False
+        bound = z3.IntVal(2 ** (53 - k))
+        self._flush_axioms()
+        self.solver.push()
+        self.solver.add(z3.Or(exact >= z3.ToReal(bound), exact <= -z3.ToReal(bound)))
+        self.solver.set("timeout", 1000)
+        r = self.solver.check()
+        self.solver.pop()
+        self.solver.set("timeout", self.opts.get("branch_timeout_ms", 1500))
+        return r == z3.unsat
+
     def round_op(self, op, ta, tb):
+        if op in ("floordiv", "mod", "pow") and not (ta.sort() == z3.IntSort() and tb.sort() == z3.IntSort()):
+            if op == "pow" and sym._num_val(tb) == 2:
+                return self.round_op("mul", ta, ta)
+            if op in ("floordiv", "mod") and self._dyk(ta) == 0 and self._dyk(tb) == 0:
+                return SNum(z3.simplify(sym._arith_exact(op, ta, tb)))  # integer-valued floats: exact
+            raise Unsupported(f"float {op} in F-mode")
         exact = z3.simplify(sym._arith_exact(op, ta, tb))
         v = sym._num_val(exact)
         if v is not None:
@@ -186,31 +230,47 @@ class Ctx:
             return SNum(z3.Q(fv.numerator, fv.denominator))
         if exact.sort() == z3.IntSort():
             return SNum(exact)
-        if self._int_valued(ta) and self._int_valued(tb) and op in ("add", "sub", "mul"):
-            return SNum(exact)  # integers below 2**53 are exact (assumption listed in evidence)
+        ka, kb = self._dyk(ta), self._dyk(tb)
         if op in ("mul", "div"):
-            other = sym._num_val(tb)
+            other = sym._num_val(tb) if op == "div" or ka is not None else None
+            if other is None and op == "mul":
+                other = sym._num_val(ta)
+                kk = kb
+            else:
+                kk = ka
             if other is not None and other != 0:
                 n, d = abs(other.numerator), other.denominator
-                if (n & (n - 1)) == 0 and (d & (d - 1)) == 0:
-                    return SNum(exact)  # scaling by a power of two is exact
+                if (n & (n - 1)) == 0 and (d & (d - 1)) == 0:  # scaling by a power of two is exact
+                    if kk is not None:
+                        sh = (d.bit_length() - 1) - (n.bit_length() - 1)
+                        self.set_dyadic(exact, max(0, kk + (sh if op == "mul" else -sh)))
+                    return SNum(exact)
+        if ka is not None and kb is not None:
+            k = max(ka, kb) if op in ("add", "sub") else (ka + kb if op == "mul" else None)
+            if k is not None and self._mag_ok(exact, k):
+                self.set_dyadic(exact, k)
+                return SNum(exact)
         key = exact.get_id()
         r = self.round_c.get(key)
         if r is None:
             r = self.fresh("fl")
-            self.round_c[key] = r
+            self.round_c[key] = (r, exact)
             u = z3.Q(U.numerator, U.denominator)
             ae = z3.If(exact >= 0, exact, -exact)
-            self.add_axiom(z3.And(r - exact <= u * ae, exact - r <= u * ae))
+            fl = z3.ToReal(z3.ToInt(exact))
+            ax = [z3.And(r - exact <= u * ae, exact - r <= u * ae), z3.And(fl <= r, r <= fl + 1), z3.Implies(exact == fl, r == exact)]
+            if op in ("add", "sub"):
+                a_, b_ = sym._real(ta), sym._real(tb if op == "sub" else -tb)
+                # Sterbenz: b/2 <= a <= 2b (same sign)  ->  a - b is exact
+                ax.append(z3.Implies(z3.Or(z3.And(b_ > 0, a_ >= b_ / 2, a_ <= 2 * b_), z3.And(b_ < 0, a_ <= b_ / 2, a_ >= 2 * b_)), r == exact))
+            for a in ax:
+                self.add_axiom(a)
+        else:
+            r = r[0]
         return SNum(r)
 
     def _int_valued(self, t):
-        if t.sort() == z3.IntSort():
-            return True
-        if z3.is_app(t) and t.decl().kind() == z3.Z3_OP_TO_REAL:
-            return True
-        v = sym._num_val(t)
-        return v is not None and v.denominator == 1
+        return self._dyk(t) == 0
 
     # ---- axioms
     def _flush_axioms(self):
